@@ -250,6 +250,8 @@ func mutateNear(r *rand.Rand, kind int, v any) any {
 			return append([]byte{}, x[:len(x)-1]...)
 		}
 		return x
+	case bool:
+		return x
 	case time.Time:
 		switch r.Intn(3) {
 		case 0:
